@@ -11,5 +11,10 @@ if [ $# -ge 1 ]; then git -C /repo archive "$1" | tar -x -C "$tmp"; else rsync -
 cp "$here/updog_replay_test.go" "$tmp/"
 cp "$here/queryparser_replay_test.go" "$tmp/internal/queryparser/"
 cp "$here/driver_replay_test.go" "$tmp/driver/"
-cp "$here/convert_replay_test.go" "$tmp/internal/convert/"
+# defect 14's repair changed ToQuery's signature; pick the variant that compiles
+if grep -q 'func ToQuery(pbq \*proto.Query) (\*updog.Query, error)' "$tmp/internal/convert/convert.go"; then
+  cp "$here/convert_replay_test.go" "$tmp/internal/convert/"
+else
+  cp "$here/convert_replay_pinned_test.go.txt" "$tmp/internal/convert/convert_replay_test.go"
+fi
 cd "$tmp" && go test -race -count=1 -timeout 180s -run 'TestReplay' ${RUNARGS:-} ./... 2>&1 | grep -E '^(---|===|ok|FAIL|panic|\s+Error:|\s+Messages:|WARNING: DATA RACE)' | grep -v '=== RUN' 
